@@ -13,6 +13,14 @@ class C20(ProgProp):
     cfg = {"p_sync": 0.12, "p_try": 0.1, "p_ctx": 0.08, "p_sv": 0.05, "p_fault": 0.12, "item_faults": 0.05,
            "flush_faults": 0.06, "p_timer": 0.05, "p_item_value_sync": 0.5, "max_kinds": 3}
 
+    def base_cfg(self, tier):
+        cfg = ProgProp.base_cfg(self, tier)
+        if tier == "thorough":
+            # with every DUMP_* option on the diagnostic output grows quadratically with the
+            # program (each step dumps the whole scheduler): keep one case within seconds
+            cfg["max_instances"] = 400
+        return cfg
+
     def _guard_motif(self, rng):
         """The runaway guard trips while a batch that was flushed synchronously (item.value()
         inside a task) is still registered with the scheduler; user priorities look at their
